@@ -638,6 +638,14 @@ def run(ctx):
         sign = "-" if off < 0 else "+"
         return "%04d%02d%02dT%02d%02d%02d.%09d%s%02d%02d" % (g.tm_year, g.tm_mon, g.tm_mday, g.tm_hour, g.tm_min, g.tm_sec, n_,
                                                              sign, abs(off) // 3600, abs(off) % 3600 // 60)
+    # which table row claims each line first (same in-process probe as the main run): a file whose lines are
+    # split between rows is in the recorded class F13 whatever the zone
+    dzl = [(j, c) for j in dz_jobs for c in j["cases"]]
+    dzo, _e = vlib.harness("c04", ["%s\t%s\t%d" % (hx(c["line"].split(b"\n")[0]), "-", 0) for _, c in dzl], args=["parse"], timeout=600) if dzl else ([], "")
+    if dzo is not None and len(dzo) == len(dzl):
+        for (j, c), o in zip(dzl, dzo):
+            j.setdefault("first_rows", set()).add(o.split("\t")[0])
+            c["first_row"] = o.split("\t")[0]
     dz_lines = 0
     for j in dz_jobs:
         pth = os.path.join(d, j["name"])
@@ -655,7 +663,9 @@ def run(ctx):
                 ctx.failure(dict(line=c["line"].decode("utf-8", "replace"), env_tz=j["tz"], view="-l" if j["local"] else "-u",
                                  table_row=tpls[j["tpl"]]["row"], file_lines=[x["line"].decode("utf-8", "replace") for x in j["cases"]],
                                  note="no --tz-offset: the default is the process's local zone (POSIX TZ string)"),
-                            want.decode("utf-8", "replace")[:60], have.decode("utf-8", "replace")[:120], [])
+                            want.decode("utf-8", "replace")[:60], have.decode("utf-8", "replace")[:120],
+                            ["notation_lines_split_between_table_rows"] if (len(set(j.get("first_rows", ())) - {"NONE"}) > 1
+                                                                             and c.get("first_row", "NONE") != "NONE") else [])
                 break
     # ---- B (continued): the model on the captured groups
     model_dis, unmatched, panics = [], 0, 0
